@@ -1,8 +1,131 @@
-/- Driver ops for C05 (none yet). -/
+/- Driver ops for C05 (reused by C02/C19/…): kernel matrices of `Xrfmv.Kernel` at `Float`,
+alias resolution through the regenerated `Gen.Alias`. -/
 import Xrfmv.Drv.Common
+import Xrfmv.Model.Kernel
+
+open Lean Xrfmv.Drv
 
 namespace Xrfmv.Drv.C05
+open Xrfmv.Kernel
 
-def ops : List (String × Handler) := []
+def rows (a : Array (Array Float)) : List (List Float) := (a.map Array.toList).toList
+
+def toArr (m : List (List Float)) : Array (Array Float) := (m.map List.toArray).toArray
+
+/-- all rows have `d` entries -/
+def rect (d : Nat) (m : List (List Float)) : Bool := m.all fun r => r.length == d
+
+/-- `"transform": null | {"kind":"none"} | {"kind":"diag","v":[bits]} | {"kind":"full","cols":[[bits]]}`
+(`cols[j]` = column `j` of the `d_in × d_out` matrix `mat`); `d` = number of input features. -/
+def getTransform (j : Json) (d : Nat) : Except String (Transform Float) :=
+  match j.getObjVal? "transform" with
+  | .error _ => pure .none
+  | .ok Json.null => pure .none
+  | .ok t => do
+    let kind ← t.getObjValAs? String "kind"
+    if kind == "none" then pure .none
+    else if kind == "diag" then
+      let v ← getFs t "v"
+      if v.size != d then throw "bad-op: diagonal transform of the wrong length"
+      pure (.diag v.toList)
+    else if kind == "full" then
+      let c := rows (← getFss t "cols")
+      if !rect d c then throw "bad-op: full transform with the wrong number of rows"
+      pure (.full c)
+    else throw s!"bad-op: transform kind {kind}"
+
+/-- `"kind"` ∈ laplace | light | product | lpq | sum_power with the parameters that class takes. -/
+def getSpec (j : Json) : Except String (Spec Float) := do
+  let kind ← j.getObjValAs? String "kind"
+  let L ← getF j "L"
+  let q ← getF j "q"
+  if kind == "laplace" then pure (.laplace q L)
+  else if kind == "light" then pure (.light q L)
+  else if kind == "product" then pure (.product q L)
+  else if kind == "lpq" then pure (.lpq (← getF j "p") q L)
+  else if kind == "sum_power" then pure (.sumPower q L (← getF j "c") (← getF j "P"))
+  else throw s!"bad-op: kernel kind {kind}"
+
+def getPoints (j : Json) : Except String (List (List Float) × List (List Float) × Nat) := do
+  let xs := rows (← getFss j "x")
+  let zs := rows (← getFss j "z")
+  let d := match xs.head? with
+    | some r => r.length
+    | none => (zs.head?.map List.length).getD 0
+  if !(rect d xs && rect d zs) then throw "bad-op: rows of x and z must have one common length"
+  pure (xs, zs, d)
+
+def className : Gen.Alias.KernelClass → String
+  | .Laplace => "LaplaceKernel"
+  | .LightLaplace => "LightLaplaceKernel"
+  | .ProductLaplace => "ProductLaplaceKernel"
+  | .Lpq => "LpqLaplaceKernel"
+  | .SumPower => "SumPowerLaplaceKernel"
+
+def argName : Gen.Alias.Arg → String
+  | .bandwidth => "bandwidth"
+  | .exponent => "exponent"
+  | .normP => "norm_p"
+  | .constMix => "const_mix"
+  | .power => "power"
+  | .eps => "eps"
+
+def specJson : Spec Float → Json
+  | .laplace q L => Json.mkObj [("kind", "laplace"), ("q", fJson q), ("L", fJson L)]
+  | .light q L => Json.mkObj [("kind", "light"), ("q", fJson q), ("L", fJson L)]
+  | .product q L => Json.mkObj [("kind", "product"), ("q", fJson q), ("L", fJson L)]
+  | .lpq p q L => Json.mkObj [("kind", "lpq"), ("p", fJson p), ("q", fJson q), ("L", fJson L)]
+  | .sumPower q L c P => Json.mkObj [("kind", "sum_power"), ("q", fJson q), ("L", fJson L), ("c", fJson c), ("P", fJson P)]
+
+/-- `get_kernel_matrix(x, z, mat)` of a kernel object. -/
+def opKernelMatrix : Handler := fun j => do
+  let K ← getSpec j
+  if !K.accepted then throw "bad-op: parameters rejected by the constructor (AssertionError)"
+  let (xs, zs, d) ← getPoints j
+  let T ← getTransform j d
+  pure <| Json.mkObj [("K", fssJson (toArr (matrixFast K T xs zs)))]
+
+def nanF : Float := 0.0 / 0.0
+
+def optF (j : Json) (k : String) : Except String Float :=
+  match j.getObjVal? k with
+  | .ok Json.null => pure nanF
+  | .ok _ => getF j k
+  | .error _ => pure nanF
+
+/-- `RFM(kernel=<alias>, bandwidth, exponent, norm_p, const_mix, power).kernel(x, z)`; `"L"` (optional)
+= bandwidth in use when it differs from the configured one (adaptive mode). -/
+def opAliasMatrix : Handler := fun j => do
+  let alias ← j.getObjValAs? String "alias"
+  let a : RfmArgs Float := {
+    bandwidth := ← getF j "bandwidth", exponent := ← getF j "exponent", normP := ← optF j "norm_p",
+    constMix := ← getF j "const_mix", power := ← getF j "power", eps := ← optF j "eps" }
+  match specOfAlias alias a with
+  | none =>
+      if (Gen.Alias.aliases.lookup alias).isNone then
+        throw (if Gen.Alias.unknownRaisesValueError then "bad-op: unknown alias (ValueError)" else "bad-op: unknown alias")
+      else throw "bad-op: constructor parameter not passed"
+  | some K0 =>
+    if !K0.accepted then throw "bad-op: parameters rejected by the constructor (AssertionError)"
+    let K ← match j.getObjVal? "L" with
+      | .ok Json.null => pure K0
+      | .ok _ => do pure (K0.withL (← getF j "L"))
+      | .error _ => pure K0
+    let (xs, zs, d) ← getPoints j
+    let T ← getTransform j d
+    let cls := ((Gen.Alias.aliases.lookup alias).map className).getD ""
+    pure <| Json.mkObj [("cls", toJson cls), ("spec", specJson K),
+      ("K", fssJson (toArr (matrixFast K T xs zs)))]
+
+/-- The regenerated alias table. -/
+def opAliases : Handler := fun _ => do
+  let tab := Gen.Alias.aliases.map fun (s, c) =>
+    let kw := (Gen.Alias.ctorArgs.lookup s).getD []
+    Json.arr #[toJson s, toJson (className c), Json.arr (kw.map fun (p, a) => Json.arr #[toJson p, toJson (argName a)]).toArray]
+  pure <| Json.mkObj [("aliases", Json.arr tab.toArray),
+    ("unknownRaisesValueError", toJson Gen.Alias.unknownRaisesValueError)]
+
+def ops : List (String × Handler) :=
+  [("kernel_matrix", opKernelMatrix), ("alias_matrix", opAliasMatrix), ("aliases", opAliases)]
 
 end Xrfmv.Drv.C05
